@@ -13,13 +13,18 @@ for d in sorted(glob.glob(os.path.join(V, "seeded", "S*"))):
     if only and m["id"] not in only:
         continue
     env = dict(os.environ); env["SEED_TIER"] = m.get("tier", "quick")
-    p = subprocess.run([sys.executable, os.path.join(V, "tools", "seedrun.py"), os.path.join(d, "patch.diff")] + m["breaks"],
+    pf = os.path.join(d, "patch_rebased.diff")
+    if not os.path.exists(pf):
+        pf = os.path.join(d, "patch.diff")
+    p = subprocess.run([sys.executable, os.path.join(V, "tools", "seedrun.py"), pf] + m["breaks"],
                        stdout=subprocess.PIPE, stderr=subprocess.STDOUT, text=True, env=env)
     try:
         out = json.loads(p.stdout[p.stdout.index("{"):])
     except Exception:
         out = {"error": p.stdout[-400:]}
     verdict = "missed"
+    if "error" in out and "APPLY-FAILED" in str(out.get("error")):
+        verdict = "n/a: patch no longer applies to the current tree"
     for pr, r in out.items():
         if isinstance(r, dict) and r.get("rc") == 1:
             verdict = "caught"
